@@ -123,4 +123,13 @@ TEXTS = {
         level_text=("Exploration: ~19 000 (quick) to ~370 000 (thorough) generated configurations, each kriged 1-3 times under a known transformation of the inputs and "
                     "compared with the predicted transformation of the outputs; exactness at data and universality checked as predicates."),
         level_note=("Trusted: the transformation algebra in the harness, rapidcheck; same generator and kappa-gating as C01.")),
+    "C10": dict(
+        engine="rapidcheck",
+        technique="property-based testing over call histories (rapidcheck): generated programs with noise prefixes compared with the same call in a fresh forked process; copy-independence and model-based tests of VectorT; incremental-vs-rebuilt differential for KrigingCalcul and Model",
+        design_ref="DESIGN.md §5 C10",
+        level_text=("Exploration over histories: ~10 000 (quick) to 400 000 (thorough) generated programs/sequences; the observed call after an arbitrary prefix of "
+                    "successful, failing and state-switching calls must return what it returns first in a fresh process; copies must be independent; incrementally "
+                    "edited objects must answer as rebuilt ones. Counter-example search with shrinking of the whole history."),
+        level_note=("Trusted: fork() isolation, the result serialisation of the harness, rapidcheck. Thread interleavings are not explored (the library starts no threads); "
+                    "only the inventoried kinds of noise calls are generated.")),
 }
